@@ -7,13 +7,18 @@ use proc_macro2::TokenStream;
 use quote::{format_ident, quote};
 
 use super::{
-    common::{generate_rule_parse_function, safe_ident},
+    common::{check_ident, check_path, generate_rule_parse_function, safe_ident},
     CodegenSettings,
 };
 use crate::grammar::ExternRule;
 
 impl ExternRule {
     pub fn generate_code(&self, settings: &CodegenSettings) -> Result<(TokenStream, TokenStream)> {
+        check_ident(&self.name, "rule name")?;
+        check_path(&self.directive.function, "extern function name")?;
+        if let Some(return_type) = &self.directive.return_type {
+            check_path(return_type, "extern return type")?;
+        }
         let return_type = if let Some(return_type) = &self.directive.return_type {
             let part_idents = return_type.iter().map(safe_ident);
             quote!(#(#part_idents)::*)
